@@ -37,9 +37,11 @@ func drawPool(t *core.Tape) poolCfg {
 
 // simRun runs f with a simulated pool; it returns the scheduler's result and
 // what f panicked with (nil if it returned).
+var stepCap = 20000
+
 func simRun(c *core.Ctx, cfg poolCfg, f func(p tp.ThreadPool)) (res tp.Result, abort *tp.Abort, pv interface{}, site string) {
 	tape := c.Tape
-	tp.SimReset(tp.Config{Choose: tape.Choose, Policy: cfg.policy, Victim: cfg.victim, StepCap: 20000})
+	tp.SimReset(tp.Config{Choose: tape.Choose, Policy: cfg.policy, Victim: cfg.victim, StepCap: stepCap})
 	func() {
 		defer func() {
 			if r := recover(); r != nil {
@@ -147,7 +149,7 @@ func (o outcome) class() string {
 
 // compare: the parallel outcome must equal the sequential one.
 func compare(c *core.Ctx, what string, cfg poolCfg, seq, par outcome, tol float64) {
-	if seq.class() != par.class() && (strings.Contains(seq.err, "invalid") || strings.Contains(par.err, "invalid")) {
+	if seq.class() != par.class() && (boundaryError(seq.err) || boundaryError(par.err)) {
 		// the maximiser lies on the boundary of the parameter space (all
 		// observations identical with no lower bound on sigma, p = 1, ...):
 		// whether the distribution constructor accepts the rounded value or
@@ -186,6 +188,10 @@ func compare(c *core.Ctx, what string, cfg poolCfg, seq, par outcome, tol float6
 	if i, ok := sameVec(seq.extra, par.extra, tol); !ok {
 		c.Fail("schedule-independence", what+"|values-differ", "%s: value %d differs between the sequential run and the run with pool (%s): sequential %v, parallel %v", what, i, cfg, seq.extra, par.extra)
 	}
+}
+
+func boundaryError(e string) bool {
+	return strings.Contains(e, "invalid") || strings.Contains(e, "positive definite") || strings.Contains(e, "singular")
 }
 
 func abortFail(c *core.Ctx, what string, cfg poolCfg, a *tp.Abort, res tp.Result) {
